@@ -36,8 +36,8 @@ const (
 )
 
 func init() {
-	register("C10", "other", "T8 DecisionTable with value provenance (objects, not text), T4 GuardedBy with the linear normaliser, T2/T3 path rules, T6 WhoMayWrite",
-		"Decides ONLY the rule constants of the election, i.e. the vote-rule table the property spells out; equivalence of the emitted blocks with an independent reference implementation needs execution and is NOT decided, nor are forkless-cause and the frame rule (vecfc, C04/C05). Decided: round = root frame - frame to decide, older roots do not vote; round 1: yes is exactly the comma-ok of looking the subject up in the map of previous-frame roots that observe(newRoot, ·) accepts (keyed by their validator), such a vote never decides; later rounds: each vote of a previous-frame root that the new root observes is looked up for (that root, this subject) and counted with the voter's validator on the yes counter on the vote.yes edge and on the no counter on the other edge, the counters being fresh per subject; the new vote is yes >= no of those two counters' sums (normalised: a tie is yes), computed after all observed roots were counted and only if all counted votes reach quorum (otherwise error, as for a missing or double vote); decided is yesCounter.HasQuorum() OR noCounter.HasQuorum(); a vote enters decidedRoots exactly on the decided edge, under its subject; every subject's vote is stored under (new root, subject); chooseAtropos walks SortedIDs(), returns a root only on the decided-and-yes edge (Atropos = that vote's observed root, Frame = frameToDecide), continues only on the decided-and-no edge, returns (nil, nil) at the first undecided validator and an error when all are decided no.",
+	register("C10", "other", "T8 DecisionTable with value provenance (objects, not text), T4 GuardedBy with the linear normaliser, T2/T3 path rules, T6 WhoMayWrite, T17 Iteration view of loops, T19 ReachingDefs (tested frames)",
+		"Decides ONLY the rule constants of the election, i.e. the vote-rule table the property spells out; equivalence of the emitted blocks with an independent reference implementation needs execution and is NOT decided, nor is forkless-cause (vecfc, C05); of the frame rule only the frames that calcFrameIdx tests are decided (C10.frame: by reaching definitions, every frame handed to forklessCausedByQuorumOn is the self-parent's frame or the previously tested frame plus one on the edge where that test held; the rest of the frame rule is C04). Loops are taken as iterations (range, or counted from 0 with C[i]), and a statement may live in a private helper of the election (the el.votes store) or in a higher-order 'for each observed root' helper. Decided: round = root frame - frame to decide, older roots do not vote; round 1: yes is exactly the comma-ok of looking the subject up in the map of previous-frame roots that observe(newRoot, ·) accepts (keyed by their validator), such a vote never decides; later rounds: each vote of a previous-frame root that the new root observes is looked up for (that root, this subject) and counted with the voter's validator on the yes counter on the vote.yes edge and on the no counter on the other edge, the counters being fresh per subject; the new vote is yes >= no of those two counters' sums (normalised: a tie is yes), computed after all observed roots were counted and only if all counted votes reach quorum (otherwise error, as for a missing or double vote); decided is yesCounter.HasQuorum() OR noCounter.HasQuorum(); a vote enters decidedRoots exactly on the decided edge, under its subject; every subject's vote is stored under (new root, subject); chooseAtropos walks SortedIDs(), returns a root only on the decided-and-yes edge (Atropos = that vote's observed root, Frame = frameToDecide), continues only on the decided-and-no edge, returns (nil, nil) at the first undecided validator and an error when all are decided no.",
 		[]string{"pos.WeightCounter.Count adds the weight of the validator passed, once (C11)", "Validators.SortedIDs is the canonical order (C12)", "observe/getFrameRoots are the forkless-cause and root-registry callbacks (C05, C33)"},
 		runC10)
 }
@@ -163,17 +163,48 @@ type c10Ctx struct {
 	namer       core.AtomNamer
 	round1      func(core.Fact) bool
 	roundLater  func(core.Fact) bool
-	subjLoop    *ast.RangeStmt
-	subj        *types.Var // the subject validator
-	vote        *types.Var // the new vote being built
+	subjLoop    ast.Stmt
+	subjIt      *core.Iteration // the loop over the undecided subjects
+	vote        *types.Var      // the new vote being built
 	yesLater    *assignment
 	decLater    *assignment
-	obsLoop     *ast.RangeStmt
-	voter       *types.Var // the observed previous-frame root
-	prev        *c10Lookup // lookup of the voter's vote
+	obsLoop     ast.Stmt
+	obsIt       *core.Iteration // the loop over the observed previous-frame roots (the voters)
+	prev        *c10Lookup      // lookup of the voter's vote
 	yesC, noC   *types.Var
 	allC        *types.Var
-	votesStores []assignment
+	votesStores []c10Store
+}
+
+// isSubj: e denotes the subject validator of the current iteration.
+func (x *c10Ctx) isSubj(e ast.Expr) bool { return c10IsElem(x.pr, x.subjIt, e) }
+
+// isVoter: e denotes the observed previous-frame root of the current iteration.
+func (x *c10Ctx) isVoter(e ast.Expr) bool { return c10IsElem(x.pr, x.obsIt, e) }
+
+// builtFrom: the collection used at `use` is el.<fn>(newRoot.ID, root frame - 1): the call itself
+// (possibly held in a single-definition local), or a variable whose only value-giving assignment is
+// that call and is passed on every path to the use that does not take an edge of the other round.
+func (x *c10Ctx) builtFrom(coll ast.Expr, fn string, use core.Point, otherRound func(core.Fact) bool) bool {
+	pr := x.pr
+	argsOK := func(call *ast.CallExpr) bool {
+		return len(call.Args) == 2 && c15SamePath(pr, call.Args[0], x.newRoot, []string{c10IDF}) && c10ExprLinIs(pr, x.namer, call.Args[1], "rootFrame - 1")
+	}
+	coll = c15Through(pr, coll)
+	if call := isCallTo(pr, coll, fn); call != nil {
+		return argsOK(call)
+	}
+	v := varOf(pr, coll)
+	defs := c10NonZeroDefs(pr, v)
+	if v == nil || len(defs) != 1 {
+		return false
+	}
+	call := isCallTo(pr, defs[0].RHS, fn)
+	if call == nil || !argsOK(call) {
+		return false
+	}
+	_, miss := core.PathQuery{F: pr, From: pr.Entry(), Target: core.PointSet(use), Avoid: core.PointSet(defs[0].Pt), AvoidEdge: pr.GuardEdges(otherRound)}.Find()
+	return !miss
 }
 
 func runC10(c *core.Ctx) {
@@ -201,38 +232,45 @@ func runC10(c *core.Ctx) {
 		}
 		x.round1 = c10LinIs(pr, x.namer, "rootFrame - decideFrame - 1 == 0")
 		x.roundLater = c10LinIs(pr, x.namer, "rootFrame - decideFrame - 1 != 0")
-		// the subject loop: range over the result of notDecidedRoots()
+		// the subject loop: an iteration over the result of notDecidedRoots() (range, or counted with C[i])
 		pr.InspectOwn(func(n ast.Node) bool {
-			if rs, ok := n.(*ast.RangeStmt); ok && rs.Value != nil && isCallTo(pr, c15Through(pr, rs.X), c10El+".notDecidedRoots") != nil {
-				x.subjLoop, x.subj = rs, varOf(pr, rs.Value)
+			switch n.(type) {
+			case *ast.RangeStmt, *ast.ForStmt:
+				if it := c10Iter(pr, n.(ast.Stmt)); it != nil && it.Coll != nil && isCallTo(pr, it.Coll, c10El+".notDecidedRoots") != nil {
+					x.subjLoop, x.subjIt = n.(ast.Stmt), it
+				}
 			}
 			return true
 		})
-		c.Need(x.subjLoop != nil && x.subj != nil, "ProcessRoot ranges over notDecidedRoots()")
-		// votes stores: el.votes[voteID{fromRoot: newRoot, forValidator: subject}] = vote
-		x.votesStores = c10IndexStores(pr, func(m ast.Expr) bool { return fieldNameOf(pr, m) == c10VotesF })
-		c.Need(len(x.votesStores) == 1, "exactly one store into el.votes")
+		c.Need(x.subjLoop != nil && x.subjIt.Head != nil && len(x.subjIt.Head.Succs) == 2, "ProcessRoot iterates over notDecidedRoots()")
+		c.Check(c10Forward(x.subjIt), "all undecided subjects are visited", "T17 Iteration", x.subjLoop.Pos(),
+			"the subject loop covers the whole result of notDecidedRoots() and is left only at its end (or by a return)",
+			"the loop over the undecided subjects does not cover all of notDecidedRoots() (break, or an index range that skips elements): some subjects get no vote from this root")
+		// votes stores: el.votes[voteID{fromRoot: newRoot, forValidator: subject}] = vote, directly or in a helper of the election
+		x.votesStores = c10VoteStores(pr)
+		c.Need(len(x.votesStores) == 1, "exactly one store into el.votes (in ProcessRoot or a helper it calls)")
 		st := x.votesStores[0]
-		x.vote = varOf(pr, st.RHS)
+		if st.Undecided != "" {
+			c.Undecided("vote stored under (new root, subject)", "T8 provenance", st.Pos, st.Undecided)
+			return
+		}
+		x.vote = varOf(pr, st.Val)
 		c.Need(x.vote != nil && c15TypeName(x.vote.Type()) == c10Pkg+".voteValue", "the stored vote is a voteValue variable")
-		key := ast.Unparen(st.LHS).(*ast.IndexExpr).Index
-		flds, _, ok := c15StructFields(pr, c15Through(pr, key))
-		okKey := ok && varOf(pr, flds[c10Pkg+".voteID.fromRoot"]) == x.newRoot && varOf(pr, flds[c10Pkg+".voteID.forValidator"]) == x.subj
-		c.Check(okKey, "vote stored under (new root, subject)", "T8 provenance", st.Stmt.Pos(),
+		okKey := varOf(pr, c15Through(pr, st.From)) == x.newRoot && x.isSubj(st.For)
+		c.Check(okKey, "vote stored under (new root, subject)", "T8 provenance", st.Pos,
 			"el.votes[{fromRoot: newRoot, forValidator: subject}] = the vote just computed",
 			"the new vote is not stored under (newRoot, subject): later roots look it up under that key and count a wrong or missing vote")
 		// every non-error iteration stores the vote
-		head, _ := pr.LoopOf(x.subjLoop)
-		c.Need(head != nil && len(head.Succs) == 2, "subject loop head")
+		head := x.subjIt.Head
 		finals := returnsWith(pr, 0, func(e ast.Expr) bool { return isCallTo(pr, e, c10El+".chooseAtropos") != nil })
 		finalSet := core.PointSet(finals...)
 		_, skip := core.PathQuery{F: pr, From: blockEntry(head.Succs[0]), Avoid: core.PointSet(st.Pt), Target: finalSet}.Find()
-		c.Check(!skip && len(finals) > 0, "every subject gets a vote and the election is re-evaluated", "T3 PostDominates", st.Stmt.Pos(),
+		c.Check(!skip && len(finals) > 0, "every subject gets a vote and the election is re-evaluated", "T3 PostDominates", st.Pos,
 			"each iteration over the undecided subjects reaches the el.votes store (or an error return), and the loop ends in return el.chooseAtropos()",
 			"an undecided subject can be skipped without a stored vote, or ProcessRoot does not end by evaluating chooseAtropos(): later roots miss a vote / a reached decision is not reported")
 		// old roots do not vote
 		ok2, wit := pr.GuardedBy(st.Pt, c10LinIs(pr, x.namer, "decideFrame - rootFrame + 1 <= 0"))
-		c.Check(ok2, "only roots above the frame to decide vote", "T4 GuardedBy (normalised)", st.Stmt.Pos(),
+		c.Check(ok2, "only roots above the frame to decide vote", "T4 GuardedBy (normalised)", st.Pos,
 			"votes are cast only on the edge NOT(root frame <= frameToDecide)",
 			"a root at or below the frame being decided can cast votes: "+pr.DescribePath(wit))
 		// T6: who writes the election state
@@ -247,7 +285,12 @@ func runC10(c *core.Ctx) {
 					continue
 				}
 				okW := f == pr || (f.Name == c10El+".Reset" && ast.Unparen(a.LHS) == tgt)
-				c.Check(okW, "write of "+short(fn)+" in "+short(f.Name), "T6 WhoMayWrite", a.Stmt.Pos(), "election state is written by ProcessRoot (entries) and Reset (fresh maps) only", "votes/decidedRoots are modified outside ProcessRoot/Reset")
+				who := "ProcessRoot (entries) and Reset (fresh maps)"
+				if !okW && fn == c10VotesF && f == st.Via && c10CalledOnlyFrom(p, f, pr) {
+					// the store ProcessRoot makes through a helper that nobody else can call
+					okW, who = true, "ProcessRoot (here through its private helper "+short(f.Name)+") and Reset"
+				}
+				c.Check(okW, "write of "+short(fn)+" in "+short(f.Name), "T6 WhoMayWrite", a.Stmt.Pos(), "election state is written by "+who+" only", "votes/decidedRoots are modified outside ProcessRoot/Reset")
 			}
 			for _, cs := range f.CallsTo("builtin.delete") {
 				if len(cs.Call.Args) > 0 && (fieldNameOf(f, cs.Call.Args[0]) == c10VotesF || fieldNameOf(f, cs.Call.Args[0]) == c10DecRoots) {
@@ -256,7 +299,8 @@ func runC10(c *core.Ctx) {
 			}
 		}
 	})
-	if x.pr == nil || x.vote == nil || x.subj == nil {
+	c10Frame(c)
+	if x.pr == nil || x.vote == nil || x.subjIt == nil {
 		return
 	}
 	pr := x.pr
@@ -308,7 +352,7 @@ func runC10(c *core.Ctx) {
 				c.Fail("round 1: yes = subject observed", "T8 DecisionTable", a.Stmt.Pos(), "in round 1 vote.yes is "+exprStr(a.RHS)+", not the comma-ok of looking the subject up among the roots the new root observes: first-round votes no longer say whether the subject's root is forkless-caused")
 				continue
 			}
-			okSubj := varOf(pr, lk.Key) == x.subj
+			okSubj := x.isSubj(lk.Key)
 			okFresh := len(assignsToVar(pr, lk.Ok)) == 1
 			if d, _ := pr.MustPassBefore([]core.Point{lk.Pt}, a.Pt); !d {
 				okFresh = false
@@ -317,18 +361,7 @@ func runC10(c *core.Ctx) {
 				"vote.yes is the ok of observedMap[subject] for the subject being voted on",
 				"round-1 vote.yes is not the presence of this subject in the observed-roots map")
 			// the map: observedRootsMap(newRoot.ID, rootFrame-1), assigned on the round-1 edge before the lookup
-			mv := varOf(pr, lk.Map)
-			defs := c10NonZeroDefs(pr, mv)
-			okMap := mv != nil && len(defs) == 1
-			var call *ast.CallExpr
-			if okMap {
-				call = isCallTo(pr, defs[0].RHS, c10El+".observedRootsMap")
-				okMap = call != nil && len(call.Args) == 2 && c15SamePath(pr, call.Args[0], x.newRoot, []string{c10IDF}) && c10ExprLinIs(pr, x.namer, call.Args[1], "rootFrame - 1")
-			}
-			if okMap {
-				_, miss := core.PathQuery{F: pr, From: pr.Entry(), Target: core.PointSet(lk.Pt), Avoid: core.PointSet(defs[0].Pt), AvoidEdge: pr.GuardEdges(x.roundLater)}.Find()
-				okMap = !miss
-			}
+			okMap := x.builtFrom(lk.Map, c10El+".observedRootsMap", lk.Pt, x.roundLater)
 			c.Check(okMap, "round 1: observed roots of the previous frame", "T8 provenance", lk.Stmt.Pos(),
 				"the map looked up is observedRootsMap(newRoot.ID, newRoot frame - 1), built on every round-1 path before the lookup",
 				"the round-1 lookup is not made in observedRootsMap(newRoot.ID, newRoot.Slot.Frame-1): votes are taken against another frame's or another root's observations (or an empty map)")
@@ -379,27 +412,15 @@ func runC10(c *core.Ctx) {
 		c.Need(x.prev != nil && x.prev.Val != nil && x.prev.Ok != nil, "later rounds look previous votes up in el.votes")
 		flds, _, ok := c15StructFields(pr, c15Through(pr, x.prev.Key))
 		c.Need(ok, "the lookup key is a voteID literal")
-		x.voter = varOf(pr, flds[c10Pkg+".voteID.fromRoot"])
-		x.obsLoop, _ = enclosingLoop(pr, x.prev.Stmt.Pos()).(*ast.RangeStmt)
-		okKey := x.voter != nil && x.obsLoop != nil && x.obsLoop.Value != nil && varOf(pr, x.obsLoop.Value) == x.voter && varOf(pr, flds[c10Pkg+".voteID.forValidator"]) == x.subj
+		x.obsLoop, x.obsIt = c10LoopAt(pr, x.prev.Stmt.Pos())
+		okKey := x.obsIt != nil && x.obsLoop != x.subjLoop && x.isVoter(flds[c10Pkg+".voteID.fromRoot"]) && x.isSubj(flds[c10Pkg+".voteID.forValidator"])
 		c.Check(okKey, "previous vote looked up for (observed root, subject)", "T8 provenance", x.prev.Stmt.Pos(),
 			"the vote counted is el.votes[{fromRoot: the observed root of this iteration, forValidator: the subject}]",
 			"the vote that is counted is not the observed root's vote for this subject")
 		c.Need(okKey, "voter loop")
 		// the roots iterated: observedRoots(newRoot.ID, rootFrame-1) assigned on the round != 1 edge
-		ov := varOf(pr, x.obsLoop.X)
-		defs := c10NonZeroDefs(pr, ov)
-		okObs := ov != nil && len(defs) == 1
-		if okObs {
-			call := isCallTo(pr, defs[0].RHS, c10El+".observedRoots")
-			okObs = call != nil && len(call.Args) == 2 && c15SamePath(pr, call.Args[0], x.newRoot, []string{c10IDF}) && c10ExprLinIs(pr, x.namer, call.Args[1], "rootFrame - 1")
-		}
-		if okObs {
-			pt, _ := pr.PointOf(x.obsLoop.X)
-			_, miss := core.PathQuery{F: pr, From: pr.Entry(), Target: core.PointSet(pt), Avoid: core.PointSet(defs[0].Pt), AvoidEdge: pr.GuardEdges(x.round1)}.Find()
-			okObs = !miss
-		}
-		_, complete := loopDone(pr, x.obsLoop)
+		okObs := x.builtFrom(x.obsIt.Coll, c10El+".observedRoots", x.prev.Pt, x.round1)
+		complete := c10Forward(x.obsIt) && x.obsIt.Done != nil
 		c.Check(okObs && complete, "voters are the previous-frame roots the new root observes", "T8 provenance", x.obsLoop.Pos(),
 			"the loop covers all of observedRoots(newRoot.ID, newRoot frame - 1) (no break), built on every later-round path",
 			"later-round votes are not collected from all of observedRoots(newRoot.ID, newRoot.Slot.Frame-1)")
@@ -434,7 +455,7 @@ func runC10(c *core.Ctx) {
 			default:
 				k.other++
 			}
-			okW := len(call.Call.Args) == 1 && c15SamePath(pr, call.Call.Args[0], x.voter, []string{c10SlotF, c10SlotVal})
+			okW := len(call.Call.Args) == 1 && c10ElemPath(pr, x.obsIt, call.Call.Args[0], []string{c10SlotF, c10SlotVal})
 			g, _ := pr.GuardedBetween(x.prev.Pt, call.Pt, c10VarIs(pr, x.prev.Ok, true))
 			if !okW || !g {
 				k.badWeight = call
@@ -481,7 +502,7 @@ func runC10(c *core.Ctx) {
 			if okF {
 				seenCalls[rhs] = true
 				sel, _ := ast.Unparen(call.Fun).(*ast.SelectorExpr)
-				okF = sel != nil && fieldNameOf(pr, sel.X) == c10ValsF && enclosingLoop(pr, d.A.Stmt.Pos()) == ast.Stmt(x.subjLoop)
+				okF = sel != nil && fieldNameOf(pr, sel.X) == c10ValsF && enclosingLoop(pr, d.A.Stmt.Pos()) == x.subjLoop
 			}
 			c.Check(okF, r.role+" is fresh per subject", "T8 provenance", pos,
 				"the counter is el.validators.NewCounter() created inside the subject loop, outside the voter loop",
@@ -547,8 +568,8 @@ func runC10(c *core.Ctx) {
 			"vote.yes is yesCounter.Sum() >= noCounter.Sum() up to rewriting: the weighted majority, a tie counts as yes",
 			"the new vote is not 'yes weight >= no weight' of the yes-edge and no-edge counters (normalised: "+got+", expected +1*no -1*yes +0 <= 0): on a tie, or with the counters exchanged, this node votes differently from nodes running the specified rule and the network forks")
 		// after all voters were counted, and only with a quorum of votes
-		okAfter := enclosingLoop(pr, a.Stmt.Pos()) == ast.Stmt(x.subjLoop)
-		if done, complete := loopDone(pr, x.obsLoop); okAfter && done != nil && complete {
+		okAfter := enclosingLoop(pr, a.Stmt.Pos()) == x.subjLoop
+		if done, complete := x.obsIt.Done, x.obsIt.Complete; okAfter && done != nil && complete {
 			okAfter, _ = mustPassBlockBefore(pr, done, a.Pt)
 			// ... in this iteration of the subject loop
 			if okAfter && pr.CanReach(a.Pt, a.Pt) {
@@ -617,7 +638,7 @@ func runC10(c *core.Ctx) {
 		decT, decF := c10FieldOf(pr, x.vote, c10DecidedF, true), c10FieldOf(pr, x.vote, c10DecidedF, false)
 		for _, st := range stores {
 			ix := ast.Unparen(st.LHS).(*ast.IndexExpr)
-			okK := varOf(pr, ix.Index) == x.subj && varOf(pr, st.RHS) == x.vote
+			okK := x.isSubj(ix.Index) && varOf(pr, st.RHS) == x.vote
 			g, wit := pr.GuardedBetween(a.Pt, st.Pt, decT)
 			d, _ := pr.MustPassBefore([]core.Point{a.Pt}, st.Pt)
 			c.Check(okK && g && d, "decidedRoots[subject] = vote only when decided", "T4 GuardedBy", st.Stmt.Pos(),
@@ -634,26 +655,6 @@ func runC10(c *core.Ctx) {
 
 	c.Clause("C10.atropos", func() {
 		ca := c.Fn(c10El + ".chooseAtropos")
-		var loop *ast.RangeStmt
-		ca.InspectOwn(func(n ast.Node) bool {
-			if rs, ok := n.(*ast.RangeStmt); ok && loop == nil {
-				loop = rs
-			}
-			return true
-		})
-		c.Need(loop != nil && (loop.Value != nil || loop.Key != nil), "chooseAtropos ranges over validators")
-		val := varOf(ca, loop.Value)
-		if loop.Value == nil {
-			val = varOf(ca, loop.Key) // ranging over keys: not a walk over the sorted slice (reported below)
-		}
-		okOrder := false
-		if call := isCallTo(ca, c15Through(ca, loop.X), "inter/pos.Validators.SortedIDs"); call != nil {
-			if sel, ok := ast.Unparen(call.Fun).(*ast.SelectorExpr); ok && fieldNameOf(ca, sel.X) == c10ValsF {
-				okOrder = true
-			}
-		}
-		c.Check(okOrder && loop.Value != nil && (loop.Key == nil || isIdentNamed(loop.Key, "_")), "validators visited in canonical order", "T8 provenance", loop.Pos(),
-			"the loop ranges over el.validators.SortedIDs() front to back", "chooseAtropos does not walk el.validators.SortedIDs(): 'first decided-yes validator' depends on another order")
 		var lk *c10Lookup
 		for _, l := range c10Lookups(ca) {
 			if fieldNameOf(ca, l.Map) == c10DecRoots {
@@ -662,7 +663,20 @@ func runC10(c *core.Ctx) {
 			}
 		}
 		c.Need(lk != nil && lk.Ok != nil && lk.Val != nil, "chooseAtropos looks the validator up in decidedRoots with comma-ok")
-		c.Check(varOf(ca, lk.Key) == val && enclosingLoop(ca, lk.Stmt.Pos()) == ast.Stmt(loop), "decision looked up for the visited validator", "T8 provenance", lk.Stmt.Pos(), "decidedRoots[validator] of the loop's validator", "the decision examined is not the visited validator's")
+		// the walk: an iteration (range, or index from 0 with C[i]) over el.validators.SortedIDs()
+		loop, it := c10LoopAt(ca, lk.Stmt.Pos())
+		c.Need(loop != nil, "chooseAtropos looks the decisions up in a loop")
+		okOrder := false
+		if it != nil && it.Coll != nil && it.FromZero && (!it.Counted || it.Index != nil) {
+			if call := isCallTo(ca, it.Coll, "inter/pos.Validators.SortedIDs"); call != nil {
+				if sel, ok := ast.Unparen(call.Fun).(*ast.SelectorExpr); ok && fieldNameOf(ca, sel.X) == c10ValsF {
+					okOrder = true
+				}
+			}
+		}
+		c.Check(okOrder, "validators visited in canonical order", "T8 provenance", loop.Pos(),
+			"the loop walks el.validators.SortedIDs() front to back", "chooseAtropos does not walk el.validators.SortedIDs() from its first element in steps of one: 'first decided-yes validator' depends on another order")
+		c.Check(c10IsElem(ca, it, lk.Key), "decision looked up for the visited validator", "T8 provenance", lk.Stmt.Pos(), "decidedRoots[validator] of the loop's validator", "the decision examined is not the visited validator's (the element of SortedIDs() the walk is at)")
 		okT, okF := c10VarIs(ca, lk.Ok, true), c10VarIs(ca, lk.Ok, false)
 		yesT, yesF := c10FieldOf(ca, lk.Val, c10YesF, true), c10FieldOf(ca, lk.Val, c10YesF, false)
 		// (a) a root is returned only via decided && yes, and it is that vote's root for the frame to decide
@@ -731,16 +745,15 @@ func runC10(c *core.Ctx) {
 			}
 		}
 		c.Need(lk != nil && lk.Ok != nil, "notDecidedRoots looks validators up in decidedRoots")
-		loop, _ := enclosingLoop(nd, lk.Stmt.Pos()).(*ast.RangeStmt)
-		c.Need(loop != nil && loop.Value != nil, "notDecidedRoots ranges over validators")
-		val := varOf(nd, loop.Value)
+		_, it := c10LoopAt(nd, lk.Stmt.Pos())
+		c.Need(it != nil && it.Coll != nil, "notDecidedRoots iterates over validators")
 		okSrc := false
-		if call := isCallTo(nd, c15Through(nd, loop.X), "inter/pos.Validators.IDs", "inter/pos.Validators.SortedIDs"); call != nil {
+		if call := isCallTo(nd, it.Coll, "inter/pos.Validators.IDs", "inter/pos.Validators.SortedIDs"); call != nil {
 			if sel, ok := ast.Unparen(call.Fun).(*ast.SelectorExpr); ok && fieldNameOf(nd, sel.X) == c10ValsF {
 				okSrc = true
 			}
 		}
-		_, complete := loopDone(nd, loop)
+		complete := c10Forward(it)
 		n := 0
 		okApp := true
 		for _, a := range assignments(nd) {
@@ -750,7 +763,7 @@ func runC10(c *core.Ctx) {
 			}
 			n++
 			g, _ := nd.GuardedBetween(lk.Pt, a.Pt, c10VarIs(nd, lk.Ok, false))
-			if !g || len(call.Args) != 2 || varOf(nd, call.Args[1]) != val || varOf(nd, lk.Key) != val {
+			if !g || len(call.Args) != 2 || !c10IsElem(nd, it, call.Args[1]) || !c10IsElem(nd, it, lk.Key) {
 				okApp = false
 			}
 		}
@@ -771,71 +784,4 @@ func runC10(c *core.Ctx) {
 			"notDecidedRoots walks all of el.validators' ids and appends a validator exactly on the !ok edge of decidedRoots[validator]",
 			"the subjects voted on are not exactly the validators missing from decidedRoots: a decided validator is re-voted or an open one gets no votes")
 	})
-}
-
-// c10CheckObserved checks observedRootsMap / observedRoots: the collection returned holds exactly the
-// roots fr of getFrameRoots(frame) for which observe(root, fr.ID) is true (the map keyed by fr's validator).
-func c10CheckObserved(c *core.Ctx, f *core.FuncInfo, name string) {
-	root, frame := f.Param(0), f.Param(1)
-	c.Need(root != nil && frame != nil, name+"(root, frame)")
-	var loop *ast.RangeStmt
-	f.InspectOwn(func(n ast.Node) bool {
-		if rs, ok := n.(*ast.RangeStmt); ok && loop == nil {
-			loop = rs
-		}
-		return true
-	})
-	c.Need(loop != nil && loop.Value != nil, name+" ranges over the frame's roots")
-	fr := varOf(f, loop.Value)
-	okSrc := false
-	if call := isCallTo(f, c15Through(f, loop.X), c10El+".getFrameRoots"); call != nil && len(call.Args) == 1 && varOf(f, call.Args[0]) == frame {
-		okSrc = true
-	}
-	_, complete := loopDone(f, loop)
-	observes := c15BoolFact(true, func(e ast.Expr) bool {
-		call := isCallTo(f, e, c10El+".observe")
-		return call != nil && len(call.Args) == 2 && varOf(f, call.Args[0]) == root && c15SamePath(f, call.Args[1], fr, []string{c10IDF})
-	})
-	// the stores
-	var stores []core.Point
-	okStore := true
-	var res *types.Var
-	for _, a := range assignments(f) {
-		if ix, ok := ast.Unparen(a.LHS).(*ast.IndexExpr); ok {
-			if _, isMap := f.Info().Types[ix.X].Type.Underlying().(*types.Map); isMap {
-				stores = append(stores, a.Pt)
-				res = varOf(f, ix.X)
-				if !c15SamePath(f, ix.Index, fr, []string{c10SlotF, c10SlotVal}) || varOf(f, a.RHS) != fr {
-					okStore = false
-				}
-			}
-		} else if call := isCallTo(f, a.RHS, "builtin.append"); call != nil {
-			stores = append(stores, a.Pt)
-			res = varOf(f, a.LHS)
-			if len(call.Args) != 2 || varOf(f, call.Args[0]) != res || varOf(f, call.Args[1]) != fr {
-				okStore = false
-			}
-		}
-	}
-	okStore = okStore && len(stores) == 1 && res != nil
-	if okStore {
-		g, _ := f.GuardedBy(stores[0], observes)
-		g2, _ := f.GuardedBetween(stores[0], stores[0], observes)
-		okStore = g && g2
-		for _, rp := range f.ReturnPoints() {
-			r := rp.Node().(*ast.ReturnStmt)
-			if len(r.Results) != 1 || varOf(f, r.Results[0]) != res {
-				okStore = false
-			}
-		}
-	}
-	// every observed root is recorded
-	okAll := false
-	for _, e := range edgesWithFact(f, observes) {
-		_, skip := core.PathQuery{F: f, From: blockEntry(e.B.Succs[e.Succ]), Avoid: core.PointSet(stores...), TargetExit: true}.Find()
-		okAll = !skip
-	}
-	c.Check(okSrc && complete && okStore && okAll, name+" = roots of the frame that observe(root, ·) accepts", "T8 DecisionTable", f.Pos(),
-		"ranges over all of getFrameRoots(frame) and records a root (under its own validator) exactly on the observe(root, frameRoot.ID) edge",
-		name+" does not return exactly the frame's roots for which observe(root, frameRoot.ID) holds: yes-votes and voter sets are computed from other roots")
 }
